@@ -43,6 +43,9 @@ const (
 	timeout = 30 * time.Millisecond
 	poll    = 10 * time.Millisecond
 	delay   = 4 * time.Millisecond
+	// the RTT field encodes the delivery's position; the unit is large so that later deliveries carry round-trip times
+	// beyond the timeout parameter (a slow reply accepted before the deadline is still an accepted reply)
+	rttUnit = 20 * time.Millisecond
 )
 
 type driver struct {
@@ -73,7 +76,7 @@ func (d *driver) ReceiveProbe(to time.Duration) (*common.ProbeResponse, error) {
 		if x.Dest && d.sentAtDest < 0 {
 			d.sentAtDest = len(d.sent)
 		}
-		return &common.ProbeResponse{TTL: x.TTL, IP: addrs[x.Resp], RTT: time.Duration(len(d.accepted)) * time.Millisecond, IsDest: x.Dest}, nil
+		return &common.ProbeResponse{TTL: x.TTL, IP: addrs[x.Resp], RTT: time.Duration(len(d.accepted)) * rttUnit, IsDest: x.Dest}, nil
 	}
 	vtime.Sleep(to)
 	return nil, common.ErrPacketDidNotMatchTraceroute
@@ -121,7 +124,7 @@ func canon(res []*common.ProbeResponse) string {
 		if r == nil {
 			s += "-;"
 		} else {
-			s += fmt.Sprintf("%d/%s/%v/%d;", r.TTL, r.IP, r.IsDest, r.RTT/time.Millisecond)
+			s += fmt.Sprintf("%d/%s/%v/%d;", r.TTL, r.IP, r.IsDest, r.RTT/rttUnit)
 		}
 	}
 	return s
@@ -165,7 +168,7 @@ func check(sc *Scenario, x *vsched.Exec, o *obs) (string, string) {
 				return k, fmt.Sprintf("ttl %d: accepted=%v want %+v got %s", w.TTL, d.accepted, *w, canon(o.res))
 			}
 			// RTT identifies which accepted delivery was kept
-			idx := int(g.RTT / time.Millisecond)
+			idx := int(g.RTT / rttUnit)
 			if idx < 1 || idx > len(d.accepted) || &d.accepted[idx-1] != w {
 				return "merge/not-first-reply", fmt.Sprintf("ttl %d: kept delivery #%d, reference keeps another; accepted=%v", w.TTL, idx, d.accepted)
 			}
